@@ -103,6 +103,13 @@ def check_src(rep, prog):
     oki = all(any(x in handlers for x in neg_excs(e.guard)) for e in imps) and bool(imps)
     rep.check(okc and oki, "C18.R4.containment", "SRC parser import and call are each inside try/except", "SRC.parse", "try: ... except",
               "a failing SRC parser module is not contained: import covered=%s, call covered by 'except Exception'=%s" % (oki, okc))
+    # a parser is remembered as missing only when its import failed - never because it raised while running
+    from .c19 import missing_store_ok
+    for st_ in [e for e in I.events if e.kind == "dict_store" and e.data[2] == NONE and
+                getattr(I.heap.get(e.data[0].oid) if isinstance(e.data[0], Ref) else None, "shared", None)]:
+        okm, why = missing_store_ok(I, st_)
+        rep.check(okm, "C18.R4.containment", "SRC parser cache: 'missing' is recorded only by the handler of the import itself", "SRC.parse",
+                  st_.node, why or "", node=st_.node)
     leaves = []
 
     def lv(t):
